@@ -199,6 +199,31 @@ VProxy(ev) ==
          ELSE "ok")
     ELSE "ok"
 
+\* Structure-aware damage (op "smut").  ParseAny: the shape parser of the file kind; ECParameters alone for "ecparams".
+ParseAny(kind, s) ==
+    IF kind = "ecparams" THEN
+        LET P == ParseParams(s, 1, Len(s)) IN
+        [ok |-> P.ok, err |-> P.err, cpe |-> P.cpe, oid |-> P.oid, L |-> P.L, priv |-> <<>>, point |-> <<>>, ver |-> 0, vpos |-> 0]
+    ELSE ParseKind(kind, s)
+SmutErrOk(ev) ==
+    IF ev.dec = "plugin.PublicEccKeyProxy.create_from_der_fmt" THEN
+        \/ HasCls(ev.mro, "ValueError")
+        \/ HasCls(ev.mro, "UnknownCurveError") /\ (OtherNamedCurve(ev.data) \/ ParseSPKI(ev.data).err = "ecparams-fieldtype")
+    ELSE \E k \in 1..Len(ev.mro) : ev.mro[k] \in Documented
+VSmut(ev) ==
+    LET P == ParseAny(ev.kind, ev.data) IN
+    IF ev.out = "raise" /\ ~SmutErrOk(ev) THEN "undocumented-error"
+    ELSE IF ev.out \notin {"ok", "raise"} THEN "no-verdict"
+    ELSE IF ev.benign THEN
+        (IF ~P.ok THEN "benign-edit-not-valid-per-spec"
+         ELSE IF ev.out # "ok" THEN "valid-structure-rejected"
+         ELSE IF ev.dcurve # ev.curve THEN "valid-structure-decoded-curve"
+         ELSE IF ev.kind # "ecparams" /\ ev.dpub # ev.pub THEN "valid-structure-decoded-public"
+         ELSE IF ev.dpriv # ev.priv THEN "valid-structure-decoded-private"
+         ELSE "ok")
+    ELSE IF ev.out = "ok" /\ ~P.ok THEN P.err
+    ELSE "ok"
+
 VCurve(ev) == IF ev.lib = ev.ossl THEN "ok" ELSE "on-curve-decision-differs"
 
 Verdict(ev) ==
@@ -211,6 +236,7 @@ Verdict(ev) ==
     ELSE IF ev.op = "hdr2" THEN VHdr2(ev)
     ELSE IF ev.op = "pemrep" THEN VPemRep(ev)
     ELSE IF ev.op = "proxy" THEN VProxy(ev)
+    ELSE IF ev.op = "smut" THEN VSmut(ev)
     ELSE IF ev.op = "mut" THEN VMut(ev)
     ELSE IF ev.op = "curve" THEN VCurve(ev)
     ELSE "unknown-op"
